@@ -101,9 +101,13 @@ def run_check(prop, tier):
     seed = seed_from_env()
     mod = load_prop(prop)
     plan = mod.plan(tier)
+    scale = float(os.environ.get("VERIF_SCALE", "1") or 1)
+    if scale != 1:
+        plan = [(f, max(1, int(n * scale))) for f, n in plan]
     agg = {"evaluations": 0, "discarded": 0, "ticks": 0, "faults": {}, "probes": {}, "ended_by": {},
            "by_family": {}}
     sigs = set()
+    all_sigs = []
     samples = []
     violations = []
     harness = []
@@ -144,6 +148,7 @@ def run_check(prop, tier):
                     agg["probes"][k] = agg["probes"].get(k, 0) + v
                 if rec.get("ended_by"):
                     agg["ended_by"][rec["ended_by"]] = agg["ended_by"].get(rec["ended_by"], 0) + 1
+                all_sigs.append((task[1], rec["idx"], rec["sig"], (rec.get("violation") or {}).get("rule")))
                 if rec["nontrivial"] and not rec["discard"] and rec["sig"]:
                     sigs.add((task[1], rec["sig"]))
                 if "sample" in rec and len(samples) < 4:
@@ -254,6 +259,7 @@ def run_check(prop, tier):
         "fault_kinds_not_applicable": ["crash/restart", "message loss/duplication/reordering", "clock skew",
                                        "disk errors (eudoxia keeps no durable state and reads no clock)"],
         "workers": WORKERS,
+        "batch_digest": digest(sorted(all_sigs, key=lambda x: (x[0], x[1]))),
         "repo": REPO,
     }
     if "other_property_rules" in agg:
